@@ -335,4 +335,16 @@ theorem forDown_sound_one (signed : Bool) (b : BitVec 64) (fuel : Nat) (a : BitV
     (h : (forDown signed false a b 1).length < fuel) :
     loopIdx (cmpDown signed false b) (· - 1#64) fuel a = forDown signed false a b 1 :=
   forDown_sound signed false b 1 (by decide) (by have := (ord_bounds signed b).1; simpa using this) fuel a h
+/-- `Go.shl` is the left shift -/
+theorem shl_eq {w : Nat} (x : BitVec w) (n : Nat) : shl x n = x <<< n := by
+  unfold shl
+  split
+  · rename_i h
+    apply BitVec.eq_of_getLsbD_eq
+    intro i hi
+    simp [BitVec.getLsbD_shiftLeft]
+    intro _ hge
+    omega
+  · rfl
+
 end Iota.Go
